@@ -217,6 +217,9 @@ def run(c):
     e2e_leg.two_lives_leg(c)
     e2e_leg.two_lives_leg(c, same_object=True)
     e2e_leg.two_lives_leg(c, same_object=True, register=False)
+    # the held configuration is not only the service's: with a service that has nothing for this client (it answers
+    # 'no change' from the first poll on) the registrations made in code are all there is - and are acted on in every life
+    e2e_leg.two_lives_leg(c, same_object=True, service_empty=True)
     if not quick:
         e2e_leg.repo_it_leg(c)
 
